@@ -211,10 +211,27 @@ func checkC13(w *World, r *Report) {
 					has[k] = true
 				}
 				hasDefault := false
+				var defaultArm *ast.CaseClause
 				for _, cl := range x.Body.List {
 					if cl.(*ast.CaseClause).List == nil {
 						hasDefault = true
+						defaultArm = cl.(*ast.CaseClause)
 					}
+				}
+				// an arm rejects its kind when it ends by returning a non-nil error
+				armRejects := func(cc *ast.CaseClause) bool {
+					if cc == nil || len(cc.Body) == 0 {
+						return false
+					}
+					ret, ok := cc.Body[len(cc.Body)-1].(*ast.ReturnStmt)
+					if !ok || len(ret.Results) == 0 {
+						return false
+					}
+					last := ret.Results[len(ret.Results)-1]
+					if id, ok := ast.Unparen(last).(*ast.Ident); ok && id.Name == "nil" {
+						return false
+					}
+					return true
 				}
 				for _, cl := range x.Body.List {
 					cc := cl.(*ast.CaseClause)
@@ -237,8 +254,10 @@ func checkC13(w *World, r *Report) {
 							r.ok("R13.1", fname, construct, w.pos(cc), "partner in the same case list", true)
 						} else if has[kt.partner[k]] {
 							r.ok("R13.1", fname, construct, w.pos(cc), "partner handled by another case of the same switch", true)
+						} else if hasDefault && armRejects(cc) && armRejects(defaultArm) {
+							r.ok("R13.1", fname, construct, w.pos(cc), "partner falls to the default clause of the same switch, which rejects it like this arm rejects its kind", true)
 						} else if hasDefault {
-							r.ok("R13.1", fname, construct, w.pos(cc), "partner falls to the default clause of the same switch", true)
+							r.bad("R13.1", fname, construct, w.pos(cc), "the switch gives "+kn+" an arm of its own and lets "+kt.name[kt.partner[k]]+" fall to the default clause, which does something else: the dashed and the plain form of the delimiter are read differently here (a tag closed with the other form is not recognised as closed)")
 						} else {
 							r.bad("R13.1", fname, construct, w.pos(cc), "the switch has no case for "+kt.name[kt.partner[k]])
 						}
